@@ -64,6 +64,17 @@ def episode(draw, index):
                              "end": ["forever"], "cleanup": {}})
             script.append({"at_ms": max(0, at - 10 + 3 * i), "op": "adopt", "pid": base + 300 + i})
         drivers.append(script)
+    if population == "adopters" and draw(st.booleans()):
+        # payloads of every flavour that keep adopting from inside the runtime while it is stopped
+        for j, flv in enumerate(draw(st.lists(st.sampled_from(ALL), min_size=1, max_size=3, unique=True))):
+            program = [["sleep", max(0, at - 6)]]
+            for i in range(draw(st.integers(5, 25))):
+                cid = base + 600 + 40 * j + i
+                payloads.append({"id": cid, "flavour": draw(st.sampled_from(ALL)), "role": "adopted", "reg": {"how": "from"}, "program": [["beat", 5, 100000]],
+                                 "end": ["forever"], "cleanup": {}})
+                program += [["adopt", cid], ["sleep", 1]]
+            payloads.append({"id": base + 590 + j, "flavour": flv, "role": "inside-adopter", "reg": {"how": "pre"}, "program": program,
+                             "end": ["forever"] if flv != "threading" else ["return", "None"], "cleanup": {}})
     naccept = draw(st.sampled_from([0, 0, 1, 2, 3]))
     early = []
     for i in range(naccept):
